@@ -78,4 +78,127 @@ theorem r_roundtrip_coord (t : RT ℝ) (hs : t.scale = 1) : t.setOriginal t.getO
       have : 1 * (t.x / 1 + 1 + t.bound - 1 - t.bound) = t.x := by ring
       cases t; simp_all
 
+/-- every real coordinate back-transforms to a value strictly inside the half-line (any positive scale) -/
+theorem r_back_in_domain (t : RT ℝ) (hs : 0 < t.scale) : t.Inside t.getOriginal := by
+  unfold RT.Inside
+  rw [RT.getOriginal_real]
+  have he := Real.exp_pos t.x
+  cases t.positive <;> simp only [if_true, if_false, Bool.false_eq_true]
+  · split_ifs with hx
+    · have : 0 < Real.exp t.x / t.scale := div_pos he hs
+      have e : -Real.exp t.x / t.scale = -(Real.exp t.x / t.scale) := by ring
+      rw [e]; linarith
+    · have : 0 ≤ t.x / t.scale := div_nonneg (not_lt.mp hx) hs.le
+      have e : -t.x / t.scale = -(t.x / t.scale) := by ring
+      rw [e]; linarith
+  · split_ifs with hx
+    · have : 0 < Real.exp t.x / t.scale := div_pos he hs
+      linarith
+    · have : 0 ≤ t.x / t.scale := div_nonneg (not_lt.mp hx) hs.le
+      linarith
+
+/-- the back-transformation is strictly increasing for `]b,+inf[` and strictly decreasing for
+`]-inf,b[` (the mirror image) -/
+theorem r_strict_mono (t : RT ℝ) (hs : t.scale = 1) :
+    if t.positive then StrictMono (fun x => (t.at x).getOriginal)
+    else StrictAnti (fun x => (t.at x).getOriginal) := by
+  have e : (fun x => (t.at x).getOriginal) = fun x => RT.g t.positive t.bound x := by
+    funext x; rw [RT.getOriginal_unit _ (by simpa using hs)]; rfl
+  rw [e]
+  cases t.positive <;> simp only [if_true, if_false, Bool.false_eq_true]
+  · intro x y hxy
+    simp only [RT.g_eq, if_false, Bool.false_eq_true]
+    have := RT.gp_strictMono hxy
+    linarith
+  · intro x y hxy
+    simp only [RT.g_eq, if_true]
+    have := RT.gp_strictMono hxy
+    linarith
+
+/-- `getFirstOrderDerivative` is the derivative of the back-transformation, everywhere (the two
+pieces meet with equal slopes at `x = 0` when the scale is 1) -/
+theorem r_d1_is_derivative (t : RT ℝ) (hs : t.scale = 1) :
+    HasDerivAt (fun x => (t.at x).getOriginal) t.d1 t.x := by
+  have e : (fun x => (t.at x).getOriginal) = fun x => RT.g t.positive t.bound x := by
+    funext x; rw [RT.getOriginal_unit _ (by simpa using hs)]; rfl
+  rw [e, RT.d1_real, hs]
+  have h := RT.gp_hasDerivAt t.x
+  cases t.positive <;> simp only [if_true, if_false, Bool.false_eq_true]
+  · have e2 : (fun x => RT.g false t.bound x) = fun x => -RT.gp x + t.bound := by
+      funext x; simp [RT.g_eq]
+    rw [e2]
+    have hd : (if t.x < 0 then -Real.exp t.x / 1 else -1 / 1) = -RT.gp' t.x := by
+      unfold RT.gp'; split_ifs <;> ring
+    rw [hd]
+    exact h.neg.add_const t.bound
+  · have e2 : (fun x => RT.g true t.bound x) = fun x => RT.gp x + t.bound := by
+      funext x; simp [RT.g_eq]
+    rw [e2]
+    have hd : (if t.x < 0 then Real.exp t.x / 1 else 1 / 1) = RT.gp' t.x := by
+      unfold RT.gp'; split_ifs <;> ring
+    rw [hd]
+    exact h.add_const t.bound
+
+/-- `getSecondOrderDerivative` is the derivative of `getFirstOrderDerivative` away from the junction
+of the two pieces -/
+theorem r_d2_is_derivative (t : RT ℝ) (hs : t.scale = 1) (hx : t.x ≠ 0) :
+    HasDerivAt (fun x => (t.at x).d1) t.d2 t.x := by
+  have h := RT.gp'_hasDerivAt t.x hx
+  rw [RT.d2_real, hs]
+  cases hp : t.positive <;> simp only [if_true, if_false, Bool.false_eq_true]
+  · have e : (fun x => (t.at x).d1) = fun x => -RT.gp' x := by
+      funext x; rw [RT.d1_real]; simp only [RT.at_positive, RT.at_scale, RT.at_x, hp, hs, RT.gp']
+      simp only [if_false, Bool.false_eq_true]; split_ifs <;> ring
+    rw [e]
+    have hd : (if t.x < 0 then -Real.exp t.x / 1 else 0) = -RT.gp'' t.x := by
+      unfold RT.gp''; split_ifs <;> ring
+    rw [hd]
+    exact h.neg
+  · have e : (fun x => (t.at x).d1) = fun x => RT.gp' x := by
+      funext x; rw [RT.d1_real]; simp only [RT.at_positive, RT.at_scale, RT.at_x, hp, hs, RT.gp']
+      simp only [if_true]; split_ifs <;> ring
+    rw [e]
+    have hd : (if t.x < 0 then Real.exp t.x / 1 else 0) = RT.gp'' t.x := by
+      unfold RT.gp''; split_ifs <;> ring
+    rw [hd]
+    exact h
+
+/-- the hypothesis `x ≠ 0` of `r_d2_is_derivative` is forced: the transform is C¹ but not C² at the
+junction (left slope of `d1` is 1, right slope 0) -/
+theorem r_d2_not_derivative_at_junction (t : RT ℝ) (hs : t.scale = 1) :
+    ¬ DifferentiableAt ℝ (fun x => (t.at x).d1) 0 := by
+  cases hp : t.positive
+  · have e : (fun x => (t.at x).d1) = fun x => -RT.gp' x := by
+      funext x; rw [RT.d1_real]; simp only [RT.at_positive, RT.at_scale, RT.at_x, hp, hs, RT.gp']
+      simp only [if_false, Bool.false_eq_true]; split_ifs <;> ring
+    rw [e]
+    intro h
+    apply RT.gp'_not_differentiableAt_zero
+    have := h.neg
+    simpa using this
+  · have e : (fun x => (t.at x).d1) = fun x => RT.gp' x := by
+      funext x; rw [RT.d1_real]; simp only [RT.at_positive, RT.at_scale, RT.at_x, hp, hs, RT.gp']
+      simp only [if_true]; split_ifs <;> ring
+    rw [e]
+    exact RT.gp'_not_differentiableAt_zero
+
+/-- why the property restricts half-lines to unit scale: at scale 2 the round trip of 0.75 in
+`]0,+inf[` fails (the forward map takes the `log` branch, the inverse the linear one) -/
+theorem r_roundtrip_fails_at_scale_two :
+    ∃ t', (RT.mk (2 : ℝ) 0 true 0).setOriginal 0.75 = some t' ∧ t'.getOriginal ≠ 0.75 := by
+  have hf : RT.fwdR (RT.mk (2 : ℝ) 0 true 0) 0.75 = Real.log 1.5 := by
+    simp only [RT.fwdR, if_true]
+    rw [if_pos (by norm_num)]; norm_num
+  have h : (0 : ℝ) < Real.log 1.5 := Real.log_pos (by norm_num)
+  rw [RT.setOriginal_real]
+  simp only [if_true]
+  rw [if_neg (by norm_num)]
+  refine ⟨_, rfl, ?_⟩
+  rw [RT.getOriginal_real]
+  simp only [hf, if_true]
+  rw [if_neg (not_lt.mpr h.le)]
+  intro hh
+  have : 0 < Real.log 1.5 / 2 := by positivity
+  linarith
+
 end Bpp.C11
